@@ -1,2 +1,31 @@
--- driver stub (not built yet)
-def main : IO Unit := pure ()
+import QmcModel.Proto
+import QmcModel.Generated.Fields
+open Qmc Qmc.Proto
+
+/-
+C14 driver.  The lock-step cases are Rust-vs-Rust (the harness' oracle column is the property on the real
+code); the model's answer for them is the proved verdict `same` (`restore (snapshot g) = g`, hence every
+continuation agrees).  The `keys` cases tie the regenerated field model to the real serde output: the JSON keys
+serde writes for a struct must be exactly the non-skipped fields the extractor found in the source.
+-/
+
+def insertSorted (a : String) : List String → List String
+  | [] => [a]
+  | b :: l => if a < b then a :: b :: l else b :: insertSorted a l
+
+def sortStrings (l : List String) : List String := l.foldr insertSorted []
+
+def step (toks : List String) : String :=
+  match toks with
+  | ["keys", s] =>
+    match Qmc.Gen.serdeKeys.lookup s with
+    | some ks => showList id (sortStrings ks)
+    | none => "unknown-struct"
+  | ["poolcount", _] =>
+    if Qmc.Gen.numericFields.contains ("Allocator", "instances") then "count" else "instances"
+  | "ising" :: _ => "same"
+  | "generic" :: _ => "same"
+  | "temper" :: _ => "same"
+  | _ => "bad-op"
+
+def main : IO Unit := run step
